@@ -66,8 +66,10 @@ class TranslatorPython(Translator):
                     (1 << expr.size) - 1
                 )
             else:
+                # Python 3: "/" is the true division (float result)
+                op = "//" if expr.op == "/" else expr.op
                 return "((%s) & 0x%x)" % (
-                    (" %s " % expr.op).join(args),
+                    (" %s " % op).join(args),
                     (1 << expr.size) - 1
                 )
         elif expr.op == "parity":
